@@ -165,6 +165,26 @@ fn cell<E: Elem, N: ArrayLength>(st: &mut Stats, c: usize, hint: Hint, fused: bo
     let _ = fault::fired();
 }
 
+/// large arrays (total size above 1 KiB): boundary counts only, no panic grid
+fn grid_large<E: Elem, N: ArrayLength>(st: &mut Stats) {
+    let n = N::USIZE;
+    let hints = [Hint::Exact, Hint::Unknown, Hint::Loose, Hint::UpperHigh, Hint::LowerLow, Hint::Fixed(n, Some(n)), Hint::Fixed(0, Some(n)), Hint::Fixed(n, None)];
+    for c in [0, 1, n - 1, n, n + 1, n + 2, n + 3] {
+        for &hint in &hints {
+            for fused in [true, false] {
+                for &form in FORMS {
+                    cell::<E, N>(st, c, hint, fused, form, None);
+                    if c >= n {
+                        // a panic exactly on the surplus probe and on the last element
+                        cell::<E, N>(st, c, hint, fused, form, Some(n));
+                        cell::<E, N>(st, c, hint, fused, form, Some(n - 1));
+                    }
+                }
+            }
+        }
+    }
+}
+
 macro_rules! lens {
     ($st:expr, $args:expr, $E:ty, [$($v:literal),*]) => { $( if $v <= $args.maxn { grid::<$E, U<$v>>($st, &$args); } )* };
 }
@@ -186,6 +206,23 @@ fn main() {
     }
     if args.flavour_on("HeapTok") {
         lens!(&mut st, args, HeapTok, [0, 1, 2, 3, 4, 5]);
+    }
+    if args.part_on("large") && args.maxn >= 200 {
+        // > 1 KiB by many small elements and by a few fat ones
+        if args.flavour_on("Tok") {
+            grid_large::<Tok, U<129>>(&mut st);
+            grid_large::<Tok, U<200>>(&mut st);
+            grid_large::<vkit::Tok24, U<65>>(&mut st);
+        }
+        if args.flavour_on("Fat") {
+            grid_large::<vkit::Fat, U<2>>(&mut st);
+            grid_large::<vkit::Fat, U<3>>(&mut st);
+            grid_large::<vkit::Fat, U<9>>(&mut st);
+        }
+        if args.flavour_on("u32") {
+            grid_large::<u32, U<257>>(&mut st);
+            grid_large::<u32, U<1024>>(&mut st);
+        }
     }
     st.finish();
 }
